@@ -118,13 +118,13 @@ def toResult (key : Spec) (at_ : Spec) : Slot → Option SpecEntry
   | .err _ code _ => some (.error key code)
   | .pending => none
 
-/-- `ModuleGraph::specifiers()`: slots first, then redirect sources looked up at their
-*immediate* target. -/
+/-- `ModuleGraph::specifiers()`: slots first, then redirect sources looked up where their
+target resolves to (since the repair of finding F1b; before, at their *immediate* target). -/
 def Graph.specifiers (g : Graph) : List SpecEntry :=
   g.slots.filterMap (fun (k, sl) => toResult k k sl) ++
   g.redirects.filterMap (fun (k, t) =>
-    match g.slot t with
-    | some sl => toResult k t sl
+    match g.slot (g.resolve t) with
+    | some sl => toResult k (g.resolve t) sl
     | none => none)
 
 end DG
